@@ -473,9 +473,82 @@ fn generated(r: &mut Report, max_tcp: usize, max_http: usize) {
     }
 }
 
+/// The reported match, not only the lookup: the same exchange through every analyzer that can be handed the database
+/// -- the TCP and HTTP analyzers and the unified analyzer under each of its protocol-switch combinations with matching
+/// on -- must report one and the same (label, quality) for each message, and for this traffic (built after bundled
+/// signatures) the database has an accepting entry, so "nothing" is not an answer.
+fn analyzer_routes(r: &mut Report) {
+    use crate::gen::pkt::{self, Spec, ACK, PSH, SYN};
+    let d = crate::drv::db();
+    let heads: [(&str, &str); 4] = [
+        ("GET / HTTP/1.1\r\nHost: example.com\r\nUser-Agent: curl/7.68.0\r\nAccept: */*\r\n\r\n", "HTTP/1.1 200 OK\r\nDate: Mon, 01 Jan 2024 00:00:00 GMT\r\nServer: Apache/2.4.1 (Unix)\r\nLast-Modified: Mon, 01 Jan 2024 00:00:00 GMT\r\nAccept-Ranges: bytes\r\nContent-Length: 4\r\nConnection: close\r\nContent-Type: text/html\r\n\r\nbody"),
+        ("GET / HTTP/1.0\r\nUser-Agent: Wget/1.12 (linux-gnu)\r\nAccept: */*\r\nHost: example.com\r\nConnection: Keep-Alive\r\n\r\n", "HTTP/1.1 200 OK\r\nServer: nginx/1.2.1\r\nDate: Mon, 01 Jan 2024 00:00:00 GMT\r\nContent-Type: text/html\r\nContent-Length: 4\r\nLast-Modified: Mon, 01 Jan 2024 00:00:00 GMT\r\nConnection: keep-alive\r\nAccept-Ranges: bytes\r\n\r\nbody"),
+        ("GET / HTTP/1.1\r\nHost: example.com\r\nUser-Agent: Mozilla/5.0 (X11; Linux x86_64; rv:10.0) Gecko/20100101 Firefox/10.0\r\nAccept: text/html,application/xhtml+xml,application/xml;q=0.9,*/*;q=0.8\r\nAccept-Language: en-us,en;q=0.5\r\nAccept-Encoding: gzip, deflate\r\nConnection: keep-alive\r\n\r\n", "HTTP/1.1 404 Not Found\r\nServer: lighttpd/1.4.28\r\nContent-Type: text/html\r\nContent-Length: 4\r\nDate: Mon, 01 Jan 2024 00:00:00 GMT\r\n\r\nbody"),
+        ("GET /x HTTP/1.1\r\nHost: nobody.example\r\nX-Unknown: 1\r\n\r\n", "HTTP/1.1 200 OK\r\nX-Unknown: 1\r\n\r\n"),
+    ];
+    let mut matched = 0;
+    for (hi, (req, resp)) in heads.iter().enumerate() {
+        let (c, s) = ((1u8, 40000u16 + hi as u16), (2u8, 80u16));
+        // a Linux-like SYN (bundled signature 4:64:0:*:mss*20,7:mss,sok,ts,nop,ws:df,id+:0) and a plain SYN+ACK
+        let mut o = vec![2, 4, 5, 0xb4, 4, 2, 8, 10, 0, 0, 0, 9, 0, 0, 0, 0, 1, 3, 3, 7];
+        if hi % 2 == 1 {
+            o = vec![2, 4, 5, 0xb4, 1, 3, 3, 8, 1, 1, 4, 2];
+        }
+        let frames = vec![
+            pkt::build(&Spec { src: c.0, sport: c.1, dst: s.0, dport: s.1, flags: SYN, seq: 999, window: if hi % 2 == 0 { 29200 } else { 8192 }, ttl: if hi % 2 == 0 { 64 } else { 128 }, opts: o, ..Spec::default() }),
+            pkt::build(&Spec { src: s.0, sport: s.1, dst: c.0, dport: c.1, flags: SYN | ACK, seq: 4999, ack: 1000, ..Spec::default() }),
+            pkt::build(&Spec { src: c.0, sport: c.1, dst: s.0, dport: s.1, flags: ACK | PSH, seq: 1000, ack: 5000, payload: req.as_bytes().to_vec(), ..Spec::default() }),
+            pkt::build(&Spec { src: s.0, sport: s.1, dst: c.0, dport: c.1, flags: ACK | PSH, seq: 5000, ack: 1000 + req.len() as u32, payload: resp.as_bytes().to_vec(), ..Spec::default() }),
+        ];
+        type Ans = (Option<(Option<String>, String)>, Option<(Option<String>, String)>, Option<(Option<String>, String)>);
+        let summarise = |t: &[crate::drv::TcpRes], h: &[crate::drv::HttpRes]| -> Ans {
+            let os = t.iter().find_map(|x| x.syn.as_ref().and(x.os.clone()).map(|(l, q)| (l, q)));
+            let rq = h.iter().find_map(|x| x.request.as_ref().map(|q| (q.browser.clone(), q.quality.clone())));
+            let rs = h.iter().find_map(|x| x.response.as_ref().map(|q| (q.server.clone(), q.quality.clone())));
+            (os, rq, rs)
+        };
+        let base = guarded(|| {
+            let mut t = crate::drv::TcpSeq::new(Some(d), 8);
+            let mut h = crate::drv::HttpSeq::new(Some(d), 8);
+            let tr: Vec<_> = frames.iter().map(|f| t.feed(f)).collect();
+            let hr: Vec<_> = frames.iter().map(|f| h.feed(f)).collect();
+            summarise(&tr, &hr)
+        });
+        let Ok(base) = base else {
+            r.dev("C02/analyzer-route/panic", "panic", || json!({"kind": "analyzer-route", "exchange": hi}));
+            continue;
+        };
+        matched += [&base.0, &base.1, &base.2].iter().filter(|x| x.as_ref().map(|y| y.0.is_some()).unwrap_or(false)).count();
+        for bits in 0..8u8 {
+            let cfg = huginn_net::AnalysisConfig { http_enabled: bits & 1 != 0, tcp_enabled: bits & 2 != 0, tls_enabled: bits & 4 != 0, matcher_enabled: true };
+            let (he, te) = (cfg.http_enabled, cfg.tcp_enabled);
+            let got = guarded(|| {
+                let mut a = huginn_net::HuginnNet::new(Some(d), 8, Some(cfg)).expect("analyzer");
+                let rs: Vec<_> = frames.iter().map(|f| crate::drv::uni_res(&a.analyze_tcp(f))).collect();
+                summarise(&rs.iter().map(|x| x.tcp.clone()).collect::<Vec<_>>(), &rs.iter().map(|x| x.http.clone()).collect::<Vec<_>>())
+            });
+            r.exec(frames.len() as u64);
+            let Ok(got) = got else {
+                r.dev("C02/analyzer-route/panic", "panic", || json!({"kind": "analyzer-route", "exchange": hi, "switches": bits}));
+                continue;
+            };
+            r.outcome(&("route", hi, bits, &got));
+            for (what, on, b, g) in [("tcp-syn", te, &base.0, &got.0), ("http-request", he, &base.1, &got.1), ("http-response", he, &base.2, &got.2)] {
+                if on && b != g {
+                    r.dev(format!("C02/analyzer-route/unified-{what}-match-differs-from-the-protocol-analyzer"), "route", || json!({"kind": "analyzer-route", "exchange": hi, "switches": {"http": he, "tcp": te, "tls": bits & 4 != 0, "matcher": true}, "protocol_analyzer": format!("{b:?}"), "unified": format!("{g:?}")}));
+                }
+            }
+        }
+    }
+    if matched < 6 {
+        r.machinery_error(format!("analyzer-route: only {matched} messages of the route traffic are matched by the bundled database; the comparison would be vacuous"));
+    }
+}
+
 pub fn run(thorough: bool) -> Outcome {
     let mut r = Report::new();
     bundled(&mut r);
+    analyzer_routes(&mut r);
     let _ = thorough;
     let max_sigs = 3;
     generated(&mut r, max_sigs, 3);
@@ -483,7 +556,7 @@ pub fn run(thorough: bool) -> Outcome {
     generated_near_keys(&mut r);
     Outcome {
         report: r,
-        rule: "lookups compared with a full scan: bundled database x observations derived from every bundled signature with each field perturbed (TCP: both tables; HTTP: 4 versions x header-list variants x software strings); every generated database of <= N signatures (72 TCP / 18 HTTP signature alphabet, every split into labels) x every observation of the concrete alphabets (48 TCP / 48 HTTP); distinct = distinct (table, scan result) outcomes".into(),
+        rule: "lookups compared with a full scan: bundled database x observations derived from every bundled signature with each field perturbed (TCP: both tables; HTTP: 4 versions x header-list variants x software strings); every generated database of <= N signatures (72 TCP / 18 HTTP signature alphabet, every split into labels) x every observation of the concrete alphabets (48 TCP / 48 HTTP); analyzer routes: 4 exchanges (SYN, SYN+ACK, request, response; three after bundled signatures, one unknown to the database) through the TCP and HTTP analyzers and the unified analyzer under all 8 protocol-switch combinations with matching on: the same (label, quality) everywhere; distinct = distinct (table, scan result) outcomes".into(),
         exhaustive: true,
         bounds: json!({"max_signatures_per_generated_tcp_database": max_sigs, "max_signatures_per_generated_http_database": 3, "tcp_sig_alphabet": 72, "http_sig_alphabet": 18, "wide_tcp_sig_alphabet_for_2_signature_databases": tcp_sig_alphabet_wide().len(), "wide_http_sig_alphabet": http_sig_alphabet_wide().len()}),
     }
